@@ -1,0 +1,64 @@
+//go:build verif
+// +build verif
+
+package cluster
+
+import (
+	lifecycle "github.com/boz/go-lifecycle"
+	"github.com/ovrclk/akash/manifest"
+	"github.com/ovrclk/akash/provider/session"
+	"github.com/ovrclk/akash/pubsub"
+	mtypes "github.com/ovrclk/akash/x/market/types"
+)
+
+// This file exists only in builds with the "verif" tag. It lets an external
+// verification harness start a deployment monitor or a lease withdrawal loop
+// on its own, exactly as the deployment manager starts them
+// (newDeploymentMonitor / newDeploymentWithdrawal over a deploymentManager
+// that carries the bus, session, client, lease, manifest group and lifecycle).
+
+// VerifLoop is a handle on one started loop and on the lifecycle of the
+// deployment manager it was started under.
+type VerifLoop struct {
+	ID       string
+	parent   lifecycle.Lifecycle
+	shutdown func()
+	done     <-chan struct{}
+}
+
+// Shutdown asks the loop to stop the way its owner does (returns when the loop
+// has taken the request or is already stopping).
+func (l *VerifLoop) Shutdown() { l.shutdown() }
+
+// Done is closed when the loop has ended.
+func (l *VerifLoop) Done() <-chan struct{} { return l.done }
+
+// ParentShuttingDown closes the owning manager's ShuttingDown channel, which
+// the deployment manager's loop does when it exits.
+func (l *VerifLoop) ParentShuttingDown() { l.parent.ShutdownInitiated(nil) }
+
+func verifManager(bus pubsub.Bus, sess session.Session, client Client, lease mtypes.LeaseID, mgroup *manifest.Group) *deploymentManager {
+	return &deploymentManager{
+		bus:     bus,
+		session: sess,
+		client:  client,
+		lease:   lease,
+		mgroup:  mgroup,
+		log:     sess.Log(),
+		lc:      lifecycle.New(),
+	}
+}
+
+// VerifNewDeploymentMonitor starts a deployment monitor.
+func VerifNewDeploymentMonitor(bus pubsub.Bus, sess session.Session, client Client, lease mtypes.LeaseID, mgroup *manifest.Group) *VerifLoop {
+	dm := verifManager(bus, sess, client, lease, mgroup)
+	m := newDeploymentMonitor(dm)
+	return &VerifLoop{ID: m.vid(), parent: dm.lc, shutdown: m.shutdown, done: m.done()}
+}
+
+// VerifNewDeploymentWithdrawal starts a lease withdrawal loop.
+func VerifNewDeploymentWithdrawal(bus pubsub.Bus, sess session.Session, lease mtypes.LeaseID) *VerifLoop {
+	dm := verifManager(bus, sess, nil, lease, nil)
+	dw := newDeploymentWithdrawal(dm)
+	return &VerifLoop{ID: dw.vid(), parent: dm.lc, shutdown: func() { dw.lc.ShutdownAsync(nil) }, done: dw.lc.Done()}
+}
